@@ -1,4 +1,5 @@
 import L21.Props.C17
+import L21.Props.C17Sorted
 import L21.Props.C19
 #print axioms L21.TProto.c19_roundtrip
 #print axioms L21.TProto.c19_cell_content
@@ -13,3 +14,4 @@ import L21.Props.C19
 #print axioms L21.TProto.c19_err_propagates_layout
 #print axioms L21.TProto.c19_err_propagates_cell
 #print axioms L21.Dep.c17_sound
+#print axioms L21.TProto.c19_listed_order_is_export_order
